@@ -45,6 +45,12 @@ SETATTR_OK = {("_controls", "unpack_ldap_control", "control"), ("_messages", "_u
               ("_session", "_send", "msg")}
 # parameters stored as they are (immutable values: ints, strs, exception payloads), pinned tree
 STORE_OK_FUNCS = {"__init__", "__post_init__"}
+# reviewed functions that write process-wide state: LDAPResultCode._missing_ interns the pseudo-member of an unknown
+# result code in the enum's value map (setdefault: idempotent, the value depends on the code alone)
+PINNED = {("_messages", "LDAPResultCode._missing_"): "d5c5d200131fce1f"}
+# classes whose instances are stateful by design (a cursor over a buffer, a session); everywhere else a method that
+# writes `self` outside construction is state that survives a call
+STATEFUL_CLASSES = {"ASN1Reader", "ASN1Writer", "LDAPSession", "LDAPClient", "LDAPServer"}
 
 
 def is_mutable_value(v) -> bool:
@@ -86,7 +92,21 @@ class ModuleAudit(ast.NodeVisitor):
 
     def note(self, node, what):
         where = ".".join(self.class_stack + self.func_stack) or "<module>"
+        if (self.mod, where) in PINNED and self.pinned_ok(where):
+            return
         self.findings.append(f"{self.mod}.py:{where}: {what}")
+
+    def pinned_ok(self, where):
+        """A function of the pinned tree that is known to touch process-wide state in a benign way (idempotent
+        memo) is accepted only as long as it is, node for node, the function that was reviewed."""
+        import hashlib
+
+        name = where.split(".")[-1]
+        for n in ast.walk(self.tree):
+            if isinstance(n, ast.FunctionDef) and n.name == name:
+                h = hashlib.sha256(ast.dump(n).encode()).hexdigest()[:16]
+                return h == PINNED[(self.mod, where)]
+        return False
 
     def collect(self):
         for st in self.tree.body:
@@ -151,6 +171,21 @@ class ModuleAudit(ast.NodeVisitor):
                         b, path = base_name(t)
                         if b == "self" and path:
                             self.note(sub, f"stores its parameter '{sub.value.id}' in self.{'.'.join(path)} without copying it")
+        if self.class_stack and self.class_stack[0] not in STATEFUL_CLASSES and node.name not in STORE_OK_FUNCS and len(self.func_stack) == 1:
+            for sub in ast.walk(node):
+                targets = []
+                if isinstance(sub, ast.Assign):
+                    targets = sub.targets
+                elif isinstance(sub, (ast.AugAssign, ast.AnnAssign)):
+                    targets = [sub.target]
+                elif isinstance(sub, ast.Delete):
+                    targets = sub.targets
+                elif isinstance(sub, ast.Call) and isinstance(sub.func, ast.Attribute) and sub.func.attr in MUTATORS:
+                    targets = [sub.func.value]
+                for t in targets:
+                    b, path = base_name(t)
+                    if b == "self" and path:
+                        self.note(sub, f"writes self.{'.'.join(path)} outside construction")
         self.generic_visit(node)
         self.func_stack.pop()
 
@@ -177,9 +212,9 @@ class ModuleAudit(ast.NodeVisitor):
             cls_names = set(self.class_mutables)
             first = path[0]
             if b in ("cls",) or b in cls_names:
+                # anything reached through the class object is shared by every instance and every session
                 owner = self.class_stack[-1] if b == "cls" and self.class_stack else b
-                if any(first in names for names in self.class_mutables.values()):
-                    return f"class-level '{owner}.{first}'"
+                return f"class-level '{owner}.{first}'"
             if b == "self" and self.class_stack:
                 # self.X where X is a class-level mutable that no __init__ rebinds: shared through the class
                 for names in self.class_mutables.values():
